@@ -11,11 +11,11 @@
 
   Results
     * `selectionRanges_08_iff` : the two models give the same range list EXACTLY when
-      `ls = true → t ≠ [] ∧ min cur orig ≤ t.length`  (`selectionRanges_08` is the ← direction).
-      - `t = []`, LINES: inside the `Document` domain; `C09.selectionRanges` computes
-        `len(text) - 1 + 1` in `Nat` and yields `(0, 1)`; the real code yields `(0, 0)` like C08
-        (`selectionRanges_empty_disagree`).  `C09` is wrong there (harmless for `cutSelection`,
-        which only slices the empty text with it).
+      `ls = true → min cur orig ≤ t.length`  (`selectionRanges_08` is the ← direction;
+      `selectionRanges_08_doc` the corollary for `cur ≤ t.length`).
+      - history: until the C09 model was repaired (`C09.linesEnd`, `Int` arithmetic) it computed
+        `len(text) - 1 + 1` in `Nat` and yielded `(0, 1)` for a LINES selection in the empty text,
+        where the real code yields `(0, 0)` like C08; now `selectionRanges_empty_agree`.
       - `min cur orig > t.length`: outside the domain (`Document.__init__` asserts
         `cursor_position ≤ len(text)`): C09 computes `from_ - col`, C08 `len(text[:from_]) - col`.
     * `cutSelection_08_iff` : the two models agree EXACTLY when `ls = true → min cur orig ≤ t.length`
@@ -69,23 +69,29 @@ theorem from_eq (t : Text) (a : Nat) (h : a ≤ t.length) :
 
 /-! ### `Document.selection_ranges` -/
 
+/-- the upper bound of a LINES range in Vi mode — `C09.linesEnd` (`Int` arithmetic, so `len - 1 + 1`
+    is `0` on the empty text) vs the `match` of `C08.selRange` (all inputs) -/
+theorem linesEnd_eq (t : Text) (hi : Nat) :
+    C09.linesEnd t hi true =
+      match findChar? '\n' (t.drop hi) with
+      | some k => hi + k + 1
+      | none => t.length := by
+  simp only [C09.linesEnd, C09.linesEndI, findNlFrom_eq, if_true]
+  cases findChar? '\n' (t.drop hi) with
+  | none => simp only [Option.map_none]; omega
+  | some k => simp only [Option.map_some]; omega
+
 /-- document.py::Document.selection_ranges — `C09.selectionRanges` (Vi mode, CHARACTERS / LINES) vs
-    `C08.selRange`.  Hypothesis only for LINES: the text is not empty and the lower cursor is inside
-    the text (both are necessary: `selectionRanges_08_iff`). -/
+    `C08.selRange`.  Hypothesis only for LINES: the lower cursor is inside the text (necessary:
+    `selectionRanges_08_iff`); the empty text is included. -/
 theorem selectionRanges_08 (t : Text) (cur orig : Nat) (ls : Bool)
-    (h : ls = true → t ≠ [] ∧ min cur orig ≤ t.length) :
+    (h : ls = true → min cur orig ≤ t.length) :
     C09.selectionRanges t cur orig (selTy ls) true = [C08.selRange t (min cur orig) (max cur orig) ls] := by
   cases ls with
   | false => simp [C09.selectionRanges, C08.selRange]
   | true =>
-    obtain ⟨ht, ha⟩ := h rfl
-    have hl : 0 < t.length := List.length_pos_iff.mpr ht
-    simp only [selTy_true, C09.selectionRanges, C08.selRange, if_true, from_eq t _ ha, findNlFrom_eq]
-    cases findChar? '\n' (t.drop (max cur orig)) with
-    | none =>
-      simp only [Option.map_none]
-      rw [Nat.sub_add_cancel hl]
-    | some k => simp only [Option.map_some]
+    simp only [selTy_true, C09.selectionRanges, C08.selRange, if_true, from_eq t _ (h rfl), linesEnd_eq]
+    rfl
 
 /-! ### `Document.cut_selection` -/
 
@@ -107,27 +113,18 @@ theorem cutSelection_08 (t : Text) (cur orig : Nat) (ls : Bool)
     (h : ls = true → min cur orig ≤ t.length) :
     C09.cutSelection t cur orig (selTy ls) true =
       (buf89 (C08.cutSelection t cur orig ls).1, clip89 (C08.cutSelection t cur orig ls).2) := by
-  by_cases ht : t = []
-  · subst ht
-    cases ls with
-    | false => simp [C09.cutSelection, C09.selectionRanges, C09.cutLoop, C08.cutSelection, C08.selRange, buf89, clip89, join]
-    | true =>
-      have := h rfl
-      simp [C09.cutSelection, C09.selectionRanges, C09.cutLoop, C08.cutSelection, C08.selRange, buf89, clip89, join,
-        C09.findNlFrom, findChar?, C08.lineStart, C09.col, C09.lineBefore, C09.Buf.before]
-      simp at this; omega
-  · have hr := selectionRanges_08 t cur orig ls (fun hl => ⟨ht, h hl⟩)
-    simp only [C08.cutSelection, buf89, clip89]
-    generalize C08.selRange t (min cur orig) (max cur orig) ls = r at hr ⊢
-    rw [cutSelection_single t cur orig (selTy ls) r.1 r.2 hr]
-    simp only [findNlFrom_eq, Option.isSome_map]
-    cases ls with
-    | false => simp
-    | true =>
-      simp only [selTy_true, true_and, Bool.true_and, C08.stripNl]
-      congr 2
-      by_cases h1 : (findChar? '\n' (List.drop (max cur orig) t)).isSome = true <;>
-      by_cases h2 : (List.drop r.1 (List.take r.2 t)).getLast? = some '\n' <;> simp [h1, h2]
+  have hr := selectionRanges_08 t cur orig ls h
+  simp only [C08.cutSelection, buf89, clip89]
+  generalize C08.selRange t (min cur orig) (max cur orig) ls = r at hr ⊢
+  rw [cutSelection_single t cur orig (selTy ls) r.1 r.2 hr]
+  simp only [findNlFrom_eq, Option.isSome_map]
+  cases ls with
+  | false => simp
+  | true =>
+    simp only [selTy_true, true_and, Bool.true_and, C08.stripNl]
+    congr 2
+    by_cases h1 : (findChar? '\n' (List.drop (max cur orig) t)).isSome = true <;>
+    by_cases h2 : (List.drop r.1 (List.take r.2 t)).getLast? = some '\n' <;> simp [h1, h2]
 
 /-! ### the hypotheses are exact -/
 
@@ -152,18 +149,14 @@ theorem from_ne (t : Text) (a : Nat) (h : t.length < a) :
     region of agreement (no hypotheses) -/
 theorem selectionRanges_08_iff (t : Text) (cur orig : Nat) (ls : Bool) :
     C09.selectionRanges t cur orig (selTy ls) true = [C08.selRange t (min cur orig) (max cur orig) ls]
-      ↔ (ls = true → t ≠ [] ∧ min cur orig ≤ t.length) := by
+      ↔ (ls = true → min cur orig ≤ t.length) := by
   refine ⟨fun heq hl => ?_, selectionRanges_08 t cur orig ls⟩
   subst hl
-  simp only [selTy_true, C09.selectionRanges, C08.selRange, if_true, findNlFrom_eq, List.cons.injEq,
+  simp only [selTy_true, C09.selectionRanges, C08.selRange, if_true, linesEnd_eq, List.cons.injEq,
     Prod.mk.injEq, and_true] at heq
-  obtain ⟨h1, h2⟩ := heq
-  refine ⟨?_, ?_⟩
-  · rintro rfl
-    simp [findChar?] at h2
-  · by_cases h : min cur orig ≤ t.length
-    · exact h
-    · exact absurd h1 (from_ne t _ (by omega))
+  by_cases h : min cur orig ≤ t.length
+  · exact h
+  · exact absurd heq.1 (from_ne t _ (by omega))
 
 /-- document.py::Document.cut_selection — `C09.cutSelection` vs `C08.cutSelection`: the exact
     region of agreement (no hypotheses) -/
@@ -183,12 +176,12 @@ theorem cutSelection_08_iff (t : Text) (cur orig : Nat) (ls : Bool) :
 
 /-! ### corollaries under the `Document` invariant `cursor_position ≤ len(text)` -/
 
-/-- document.py::Document.selection_ranges — `C09.selectionRanges` vs `C08.selRange` for a non-empty
-    text and a cursor inside it (`Document.__init__` asserts `cursor_position ≤ len(text)`;
-    `original_cursor_position` is unconstrained) -/
-theorem selectionRanges_08_doc (t : Text) (cur orig : Nat) (ls : Bool) (ht : t ≠ []) (hc : cur ≤ t.length) :
+/-- document.py::Document.selection_ranges — `C09.selectionRanges` vs `C08.selRange` for every text
+    (also the empty one) and a cursor inside it (`Document.__init__` asserts
+    `cursor_position ≤ len(text)`; `original_cursor_position` is unconstrained) -/
+theorem selectionRanges_08_doc (t : Text) (cur orig : Nat) (ls : Bool) (hc : cur ≤ t.length) :
     C09.selectionRanges t cur orig (selTy ls) true = [C08.selRange t (min cur orig) (max cur orig) ls] :=
-  selectionRanges_08 t cur orig ls (fun _ => ⟨ht, by omega⟩)
+  selectionRanges_08 t cur orig ls (fun _ => by omega)
 
 /-- document.py::Document.selection_ranges, CHARACTERS — `C09.selectionRanges` vs `C08.selRange`, all inputs -/
 theorem selectionRanges_08_chars (t : Text) (cur orig : Nat) :
@@ -286,16 +279,16 @@ theorem textObjectCut_08 (t : Text) (cur orig : Nat) (ls : Bool) (hc : cur ≤ t
     simp only [toTy, selTy_true, if_true, cut08_linewise, C09.textObjectCut, Option.map_some,
       from_eq t _ hlo, e1]
     rw [← selTy_true, cutSelection_08 _ _ _ true (fun _ => by omega)]
-/-! ### witnesses of the disagreements -/
 
-/-- INSIDE the domain: LINES selection in the empty document.  The real
+/-! ### witnesses: the empty text (agreement) and the region outside the domain (disagreement) -/
+
+/-- LINES selection in the empty document: the real
     `Document("", 0, SelectionState(0, LINES)).selection_ranges()` under `vi_mode` is `[(0, 0)]`
-    (`len(text) - 1 = -1`, then `+ 1`): `C08.selRange` is right, `C09.selectionRanges` (truncated
-    `Nat` subtraction) is wrong. -/
-theorem selectionRanges_empty_disagree :
-    C09.selectionRanges [] 0 0 .lines true = [(0, 1)] ∧ C08.selRange [] 0 0 true = (0, 0) := by decide
+    (`len(text) - 1 = -1`, then `+ 1`); both models give that (C09 since its repair). -/
+theorem selectionRanges_empty_agree :
+    C09.selectionRanges [] 0 0 .lines true = [(0, 0)] ∧ C08.selRange [] 0 0 true = (0, 0) := by decide
 
-/-- ... but `cut_selection` only slices the empty text with that range: both models give
+/-- `cut_selection` in the empty document: both models give
     `(Document("", 0), ClipboardData("", LINES))`, as the real code does. -/
 theorem cutSelection_empty_agree :
     C09.cutSelection [] 0 0 .lines true = (⟨[], 0⟩, ⟨[], .lines⟩) ∧
